@@ -288,8 +288,20 @@ func (x *Exec) specHelper(o *types.Func, e *ast.CallExpr, st *State, env *Env) (
 		}
 		pre := x.oldStack[len(x.oldStack)-1]
 		x.specDepth++
+		x.curStack = append(x.curStack, st)
 		v := x.eval(e.Args[0], pre, env)
+		x.curStack = x.curStack[:len(x.curStack)-1]
 		x.specDepth--
+		return []Value{v}, true
+	case "cur":
+		if len(x.curStack) == 0 {
+			return []Value{x.eval(e.Args[0], st, env)}, true
+		}
+		cs := x.curStack[len(x.curStack)-1]
+		saved := x.curStack
+		x.curStack = x.curStack[:len(x.curStack)-1]
+		v := x.eval(e.Args[0], cs, env)
+		x.curStack = saved
 		return []Value{v}, true
 	case "implies":
 		a := x.eval(e.Args[0], st, env).(Scalar)
@@ -385,28 +397,60 @@ func (x *Exec) evalQuant(kind string, e *ast.CallExpr, st *State, env *Env) Valu
 	if !ok {
 		x.abort("%s needs a function literal", kind)
 	}
-	env2 := newEnv(env)
-	var binders []string
-	for _, fld := range fl.Type.Params.List {
-		for _, nm := range fld.Names {
-			o := x.objOf(nm)
-			ti := x.classify(o.Type())
-			x.fc.n++
-			bn := fmt.Sprintf("%s!%d", nm.Name, x.fc.n)
-			env2.vals[o] = Scalar{bn, ti}
-			binders = append(binders, fmt.Sprintf("(%s %s)", bn, ti.sort()))
-		}
-	}
 	ret, ok := fl.Body.List[0].(*ast.ReturnStmt)
 	if !ok || len(fl.Body.List) != 1 {
 		x.abort("quantifier body must be a single return")
 	}
+	env2 := newEnv(env)
+	var binders []string
+	bound := map[types.Object]bool{}
+	var objs []types.Object
+	for _, fld := range fl.Type.Params.List {
+		for _, nm := range fld.Names {
+			o := x.objOf(nm)
+			bound[o] = true
+			objs = append(objs, o)
+		}
+	}
+	anchors := x.findAnchors(ret.Results[0], bound)
 	x.specDepth++
 	x.binders++
+	for _, o := range objs {
+		ti := x.classify(o.Type())
+		x.fc.n++
+		bn := fmt.Sprintf("%s!%d", o.Name(), x.fc.n)
+		binders = append(binders, fmt.Sprintf("(%s %s)", bn, ti.sort()))
+		if a, ok := anchors[o]; ok && ti.K == TInt {
+			// re-index the quantifier by the absolute array index of the anchor read:
+			// x := j - (off + rest), so that the anchor read is (select A j) and can serve as trigger
+			sv, ok := x.eval(a.node.X, st, env2).(Slice)
+			if ok {
+				base := sv.Off
+				for _, t := range a.rest {
+					tv := x.toInt(x.eval(t.e, st, env2))
+					if t.neg {
+						base = simpSub(base, tv)
+					} else {
+						base = simpAdd(base, tv)
+					}
+				}
+				env2.vals[o] = Scalar{simpSub(bn, base), ti}
+				x.anchorIdx[a.node] = bn
+				continue
+			}
+		}
+		env2.vals[o] = Scalar{bn, ti}
+	}
 	x.trigStack = append(x.trigStack, nil)
+	x.autoTrig = append(x.autoTrig, nil)
 	body := x.eval(ret.Results[0], st, env2).(Scalar)
 	trigs := x.trigStack[len(x.trigStack)-1]
 	x.trigStack = x.trigStack[:len(x.trigStack)-1]
+	auto := x.autoTrig[len(x.autoTrig)-1]
+	x.autoTrig = x.autoTrig[:len(x.autoTrig)-1]
+	for _, a := range anchors {
+		delete(x.anchorIdx, a.node)
+	}
 	x.binders--
 	x.specDepth--
 	q := "forall"
@@ -414,6 +458,9 @@ func (x *Exec) evalQuant(kind string, e *ast.CallExpr, st *State, env *Env) Valu
 		q = "exists"
 	}
 	b := body.T
+	if len(trigs) == 0 && len(objs) == 1 {
+		trigs = dedup(auto)
+	}
 	if len(trigs) > 0 {
 		b = "(! " + b
 		for _, t := range trigs {
@@ -422,6 +469,95 @@ func (x *Exec) evalQuant(kind string, e *ast.CallExpr, st *State, env *Env) Valu
 		b += ")"
 	}
 	return Scalar{fmt.Sprintf("(%s (%s) %s)", q, strings.Join(binders, " "), b), boolTI}
+}
+
+type signedExpr struct {
+	e   ast.Expr
+	neg bool
+}
+
+type quantAnchor struct {
+	node *ast.IndexExpr
+	rest []signedExpr
+}
+
+// findAnchors finds, for each bound variable, the first slice read S[x + e]
+// (S and e free of bound variables) in the quantifier body.
+func (x *Exec) findAnchors(body ast.Expr, bound map[types.Object]bool) map[types.Object]quantAnchor {
+	out := map[types.Object]quantAnchor{}
+	mentions := func(n ast.Node) bool {
+		found := false
+		ast.Inspect(n, func(m ast.Node) bool {
+			if id, ok := m.(*ast.Ident); ok && bound[x.objOf(id)] {
+				found = true
+			}
+			return !found
+		})
+		return found
+	}
+	var flatten func(e ast.Expr, neg bool, acc *[]signedExpr)
+	flatten = func(e ast.Expr, neg bool, acc *[]signedExpr) {
+		switch t := ast.Unparen(e).(type) {
+		case *ast.BinaryExpr:
+			if t.Op == token.ADD {
+				flatten(t.X, neg, acc)
+				flatten(t.Y, neg, acc)
+				return
+			}
+			if t.Op == token.SUB {
+				flatten(t.X, neg, acc)
+				flatten(t.Y, !neg, acc)
+				return
+			}
+		}
+		*acc = append(*acc, signedExpr{ast.Unparen(e), neg})
+	}
+	ast.Inspect(body, func(n ast.Node) bool {
+		switch t := n.(type) {
+		case *ast.FuncLit:
+			return false
+		case *ast.CallExpr:
+			if id, ok := t.Fun.(*ast.Ident); ok && (id.Name == "old" || id.Name == "cur") {
+				return false
+			}
+		case *ast.IndexExpr:
+			st, ok := x.typeOf(t.X).(*types.Slice)
+			if !ok {
+				if tt := x.typeOf(t.X); tt != nil {
+					st, ok = tt.Underlying().(*types.Slice)
+				}
+			}
+			_ = st
+			if !ok || mentions(t.X) {
+				return true
+			}
+			var terms []signedExpr
+			flatten(t.Index, false, &terms)
+			var v types.Object
+			var rest []signedExpr
+			good := true
+			for _, tm := range terms {
+				if id, ok := tm.e.(*ast.Ident); ok && bound[x.objOf(id)] {
+					if v != nil || tm.neg {
+						good = false
+					}
+					v = x.objOf(id)
+					continue
+				}
+				if mentions(tm.e) {
+					good = false
+				}
+				rest = append(rest, tm)
+			}
+			if good && v != nil {
+				if _, done := out[v]; !done {
+					out[v] = quantAnchor{t, rest}
+				}
+			}
+		}
+		return true
+	})
+	return out
 }
 
 // callFuncValue handles calls through function-typed variables/fields.
